@@ -21,6 +21,10 @@
             (HexBlock.verifyBlockDims / getPinToDuctGap), whatever the order
      (comp also: zero-valued modification entries (a request, unlike a blank), two modifications of one component set
       together, any list too short or too long; stack also: lower-case, mixed-case and two-letter xs types)
+     group  a block that uses a component group (top-level `components:` + `component groups:`): the members' own mult, the
+            group's mult (the group's wins, whatever the member's own is), a group nobody defines
+     (comp also: class 1 / class 2 heavy-metal blends from a Pu feed, depleted U and LEU -- feeds that do / do not cover the
+      base material's heavy-metal nuclides -- on UZr and UraniumOxide, with name-valued modification entries)
      core   two assembly designs on core grids: hex full, hex third, hex corners-up full, Cartesian full and quarter
             (each as explicit list and as text map), theta-R-Z (explicit list); cells placed / removed, unknown
             specifier, cells outside a third core, a cell listed twice, two grids of one name
